@@ -286,6 +286,7 @@ func ordinalIn(fd *ast.FuncDecl, target ast.Node) int {
 // C12 slot-scope: the static slot belongs to the script, not to one frame
 
 func ruleSlotScope(c *Ctx) {
+	slotReleaseUnconditional(c)
 	runGates(c, []GateSpec{{
 		ID: "unloadContext.static", Fn: [3]string{"pkg/vm", "VM", "unloadContext"}, Target: "call:pkg/vm.(Slot).clearRefs@pkg/vm#static",
 		Guards: []Guard{{ID: "last-frame-of-script", Doc: "references held by the static slot are released only when the last frame of the script is unloaded (next context belongs to another script)", Whole: true,
